@@ -585,6 +585,16 @@ def _hyp_ctor(it, cls, args, kw):
         o = a0.clone()
         o.cls = cls
         o.unit_ndims = und
+        aund = HYP_AUX.get(cls.name, 0)
+        if aund and not isinstance(o.aux_data, AArr) \
+                and isinstance(o.proj_data, AArr):
+            m = it.find_method(o, "_compute_aux_data")
+            if m is None:
+                raise Unsupported(f"{cls.name}._compute_aux_data not found")
+            o.aux_ndims = aund
+            o.aux_data = it.call_node(m, [o, o.proj_data])
+        elif not aund:
+            o.aux_data, o.aux_ndims = None, 0
         return o
     if len(args) > 1 and isinstance(args[1], (AArr, AObj)) and cls.name in (
             "Geodesic", "Segment", "PointPair", "TangentVector",
@@ -726,6 +736,27 @@ def _sh5_table():
               "from_reflection", [iso3], {}, lambda O: ("obj", O + (2, 3))))
     t.append(("Subspace.reflection_across", geo3, "reflection_across", [],
               {}, lambda O: ("obj", O + (3, 3))))
+    horo3 = dict(cls="Horosphere", proj=(2, 3), und=2)
+    t.append(("Horosphere.intersect_geodesic", horo3, "intersect_geodesic",
+              [geo3], {}, lambda O: ("obj", O + (2, 3))))
+    t.append(("Segment.geodesic", seg, "geodesic", [], {},
+              lambda O: ("obj", O + (2, "n"))))
+    t.append(("Segment.get_endpoints", seg, "get_endpoints", [], {},
+              lambda O: ("obj", O + (2, "n"))))
+    t.append(("Segment.get_end_pair", seg, "get_end_pair", [], {},
+              lambda O: (O + N, O + N)))
+    t.append(("BoundaryArc.endpoint_coords", barc3, "endpoint_coords",
+              ["Model.POINCARE"], {}, lambda O: O + (2, 2)))
+    t.append(("BoundaryArc.orientation", barc3, "orientation", [], {},
+              lambda O: O))
+    hyp_ = dict(cls="Hyperplane", proj=("n", "n"), und=2)
+    hyp3 = dict(cls="Hyperplane", proj=(3, 3), und=2)
+    t.append(("Hyperplane.reflection_across", hyp3, "reflection_across", [],
+              {}, lambda O: ("obj", O + (3, 3))))
+    t.append(("Hyperplane.ideal_basis_coords", hyp_, "ideal_basis_coords",
+              ["Model.KLEIN"], {}, lambda O: O + ("n-1", "n-1")))
+    t.append(("Hyperplane.sphere_parameters", hyp_, "sphere_parameters",
+              [], {}, lambda O: (O + ("n-1",), O)))
     pt3 = dict(cls="Point", proj=(3,), und=1)
     t.append(("Point.origin_to", pt3, "origin_to", [], {},
               lambda O: ("obj", O + (3, 3))))
